@@ -219,4 +219,23 @@ CHECKS = {
         note=_NOTE + " Tiny worlds are installed through the public ctx fields; the sign-bit convention of compression is a "
              "parameter (round trip judged); the Elligator value itself is specified under C13.",
         technique="TLC model checking of the Edwards law and the formula programs + TLC trace validation of recorded ed calls"),
+    "C06": dict(
+        text="Scheme definitions written out in TLA+ (RFC 8017 RSADP with EME-OAEP, EME-PKCS1-v1_5 and the basic block; Rabin with its "
+             "redundancy format; Paillier, Damgard-Jurik (s = 1..3, 4 in thorough) and subgroup Paillier through the L-function; Benaloh; "
+             "ECDH, ECMQV and ECIES over lib/Curve with transcribed SHA-256, KDF2, MGF1, HMAC and AES-CBC; Lagrange interpolation at 0; "
+             "Beaver triples) are evaluated by TLC on every event of harness/drv_enc, which carries the generated private key; rand_bytes "
+             "is interposed so the RSA ciphertext is predicted exactly. Plaintext lengths 0..max with leading-zero / all-FF contents, "
+             "homomorphic operand pairs incl. sums that wrap, every (t, n) threshold with every t- and (t-1)-subset, and every byte-, "
+             "length-, point- and padding-mutated ciphertext are judged by the same definition (refusal must leave the output untouched "
+             "or cleared). Design models model/Enc (as-coded OAEP/PKCS#1 decoders vs RFC 8017 on a toy hash, Paillier/CRT for every "
+             "n = pq <= 127, Shamir over Z_5/Z_7) and model/Flows (delegated pairing and pairing-based PSI over Z_3..Z_7, soundness against "
+             "a tampering helper) are checked exhaustively, with the as-coded PKCS#1 decoder kept as an expected-to-fail control. "
+             "IBE, BGN, SOK, delegated pairing, the three PSI protocols and pairing triples are judged at input/output-contract level "
+             "(the set output must equal X intersect Y decided in TLA+; every tampered helper response must be refused) with the library "
+             "as witness for pairing values (pairings themselves: C04).",
+        ref="§4 C06",
+        note=_NOTE + " Not decided: semantic security, collusion of several delegation helpers. A ciphertext representative c >= n of the "
+             "right length may be refused or decrypted as c mod n (the property names padding, length and authentication only). "
+             "cp_ped and the g1/g2/gt share multiplications are not driven.",
+        technique="TLC evaluation of explicit TLA+ scheme definitions on recorded events (trace validation) + TLC model checking of padding/Paillier/sharing/delegation design models"),
 }
